@@ -25,6 +25,26 @@ class Models:
     def used(self, name):
         self.e.models_used.add(name)
 
+    # ------------------------------------------------------------------ strings: a string value is the identity of its content
+    def str_id(self, literal):
+        """interned content id of a string literal (ids of different contents differ; 0 is the null char pointer)"""
+        if not hasattr(self, '_strs'): self._strs = {}
+        lit = literal
+        if isinstance(lit, str) and len(lit) >= 2 and lit[0] == '"' and lit[-1] == '"': lit = lit[1:-1]
+        if lit not in self._strs: self._strs[lit] = 1000 + len(self._strs)
+        return z3.IntVal(self._strs[lit])
+
+    def str_throwing_conv(self, st, name, s, n, fr, rng):
+        """std::stod / std::stoi: a function of the content; throws std::invalid_argument / std::out_of_range when not convertible"""
+        e = self.e
+        ok = e.uf('conv_ok:' + name, I, B)(s)
+        sx = st.clone(); sx.pc.append(z3.Not(ok))
+        st.throws.append((sx, 'std::invalid_argument', n))
+        st.pc.append(ok)
+        v = e.uf('conv:' + name, I, rng)(s)
+        self.used('std::%s: an uninterpreted function of the string content; may throw std::invalid_argument / std::out_of_range' % name)
+        return v
+
     # ------------------------------------------------------------------ exceptions
     def exception_derives(self, cls, base):
         if cls is None: return False
@@ -56,6 +76,15 @@ class Models:
         raise Unsupported('member %s of opaque %s' % (name, base.what))
 
     def repo_override(self, qn):
+        if qn == 'lower_string':
+            def f(st, this, arg_nodes, n, fr):
+                e = self.e
+                lv_ = e.lv(arg_nodes[0], st, fr)
+                v = e.uf('lower', I, I)(e.raw(e.load(st, lv_)))
+                e.store(st, lv_, v)
+                self.used('lower_string (std::transform + tolower): an uninterpreted function of the content with lower("inf") = "inf"')
+                return v
+            return f
         return None
 
     # ------------------------------------------------------------------ <cmath> and friends
@@ -149,6 +178,21 @@ class Models:
         if name in ('omp_get_max_threads', 'omp_get_num_threads'): return z3.IntVal(1)
         if name == 'now':
             return Opaque('time_point')
+        if name in ('stod', 'stof', 'stold'):
+            return self.str_throwing_conv(st, 'stod', e.raw(A(0)), n, fr, R)
+        if name in ('stoi', 'stol', 'stoul', 'stoull', 'stoll'):
+            return self.str_throwing_conv(st, name, e.raw(A(0)), n, fr, I)
+        if name == 'to_string':
+            v = A(0)
+            f = e.uf('to_string:' + ('real' if z3.is_real(v) else 'int'), R if z3.is_real(v) else I, I)
+            return f(v)
+        if name == 'make_shared':
+            t = TY.of_node(n)
+            pt = t.args[0]
+            fake = {'kind': 'CXXConstructExpr', 'type': {'qualType': pt.raw or pt.name}, 'inner': list(args), 'ctorType': {'qualType': 'void (%s)' % ', '.join(a.get('type', {}).get('qualType', '') for a in args)},
+                    '_file': n.get('_file'), '_line': n.get('_line')}
+            obj = self.construct_heap_class(fake, pt, list(args), fake['ctorType']['qualType'] if args else 'void ()', st, fr)
+            return Ptr(obj.ref, pt.name)
         if name == 'epsilon':
             import fractions
             t = TY.of_node(n)
@@ -210,7 +254,16 @@ class Models:
             v = e.rv(args[0], st, fr)
             if isinstance(v, Ptr): return Ptr(v.ref, e.ptr_cls(t) or v.cls)
             raise Unsupported('smart pointer construction from %r' % (v,))
-        if t.kind in ('vector', 'flist', 'list', 'set', 'map', 'string'):
+        if t.kind == 'string':
+            if not args: return self.str_id('')
+            v = e.rv(args[0], st, fr)
+            if isinstance(v, Ptr): v = v.ref
+            if is_z3(v) and z3.is_int(v):
+                if 'const char *' in ctor_t and e.safety_on('null-deref'):
+                    e.oblige(st, 'safety:string-from-null-pointer', v != 0, where=e.where(n, fr))
+                return v
+            raise Unsupported('std::string construction from %r at %s' % (v, e.where(n, fr)))
+        if t.kind in ('vector', 'flist', 'list', 'set', 'map'):
             return self.construct_container(n, t, args, ctor_t, st, fr)
         if t.kind == 'tuple':
             return Rec('tuple', {str(i): e.rv(a, st, fr) for i, a in enumerate(args)})
@@ -308,6 +361,8 @@ class Models:
             return
         if t.kind == 'set':
             self.set_clear(st, obj); return
+        if t.kind == 'map':
+            return            # contents of std::map members are not tracked (no function under contract reads them)
         if t.kind == 'record':
             e.init_default_object(st, obj, None); return
         raise Unsupported('default container of type %r' % (t,))
@@ -378,9 +433,25 @@ class Models:
                     arr = e.harr(st, key, z3.ArraySort(I, z3.ArraySort(I, srt)))
                     st.heap[key] = z3.Store(arr, dst.ref, z3.Select(arr, src.ref))
                 return
-            raise Unsupported('copy of a vector of heap-class elements (%r)' % (ety,))
+            srclen = e.vec_len(st, src.ref)
+            if z3.is_true(z3.simplify(srclen == 0)): return
+            if ety.kind != 'record': raise Unsupported('copy of a vector of %r' % (ety,))
+            # element-wise copy of heap-class elements: for every leaf field array A, A'[elem(dst,k)] = A[elem(src,k)], rest unchanged
+            leaves, subs = e.object_leaf_keys(ety)
+            if subs: raise Unsupported('copy of a vector whose elements contain containers (%r)' % (ety,))
+            elem = e.uf('elem', I, I, I); ev = e.uf('elem_v', I, I)
+            d_, s_ = dst.ref, src.ref
+            for key, lt in leaves:
+                A = e.harr(st, key, z3.ArraySort(I, e.sort_of(lt)))
+                A2 = e.fresh(key + '!cp', A.sort())
+                st.pc.append(QForall(lambda k, A=A, A2=A2: z3.And(z3.Select(A2, elem(d_, k)) == z3.Select(A, elem(s_, k)), ev(elem(d_, k)) == d_), 1, 'vector copy: element-wise', [A2]))
+                st.pc.append(QForall(lambda r, A=A, A2=A2: z3.Implies(ev(r) != d_, z3.Select(A2, r) == z3.Select(A, r)), 1, 'vector copy: other objects unchanged', [A2]))
+                st.heap[key] = A2
+            return
         if t.kind == 'record':
             e.copy_fields(st, dst, src); return
+        if t.kind == 'map':
+            return        # contents of std::map members are not tracked
         if t.kind == 'flist':
             e.hwrite(st, 'flist.len', dst.ref, self.flist_len(st, src.ref))
             arr = self.flist_count_arr(st)
@@ -585,7 +656,7 @@ class Models:
         if isinstance(obj, Opaque):
             for a_ in args: e.ev(a_, st, fr)
             return self.opaque_result(n, obj.what.split('<')[0] + '.' + name)
-        if isinstance(obj, ObjLV): bt = obj.ty if obj.ty.kind != 'record' else bt
+        if isinstance(obj, ObjLV): bt = obj.ty if (obj.ty.kind != 'record' or bt.kind != 'record') else bt
         k = bt.kind
         if k == 'ptr' and isinstance(obj, LVS) and not isinstance(obj, ObjLV):
             return self.smart_ptr_method(st, e.load(st, obj), name, n, fr, lv=obj)
@@ -636,6 +707,12 @@ class Models:
                 elif not (isinstance(v, Rec) and v.t == 'optional'):
                     v = Rec('optional', {'has': z3.BoolVal(True), 'value': v})
             e.store(st, lv, v); return lv
+        if name in ('operator+', 'operator+=') and (a0t.kind == 'string' or TY.of_node(args[1]).noref().kind == 'string'):
+            a = e.raw(e.rv(args[0], st, fr)); b = e.raw(e.rv(args[1], st, fr))
+            r = e.uf('strcat', I, I, I)(a, b)
+            if name == 'operator+=':
+                lv_ = e.lv(args[0], st, fr); e.store(st, lv_, r); return lv_
+            return r
         if name in ('operator==', 'operator!=', 'operator<', 'operator-', 'operator+', 'operator<=', 'operator>', 'operator>=') and len(args) == 2:
             a = e.rv(args[0], st, fr); b = e.rv(args[1], st, fr)
             if isinstance(a, Rec) and a.t == 'optional' and isinstance(b, Opaque): return a.f['has'] == (name == 'operator!=')
@@ -683,6 +760,33 @@ class Models:
             if e.is_value_type(ety): return ElemLV(it.vref, it.idx, ety)
             return ObjLV(e.elem_ref(st, it.vref, it.idx), ety)
         raise Unsupported('dereference of iterator into %r' % (t,))
+
+    # std::string members
+    def _sval(self, st, obj):
+        v = self.e.load(st, obj) if isinstance(obj, LVS) else obj
+        return self.e.raw(v)
+    def m_string_c_str(self, st, obj, bt, args, n, fr): return self._sval(st, obj)
+    m_string_data = m_string_c_str
+    def m_string_empty(self, st, obj, bt, args, n, fr): return self._sval(st, obj) == self.str_id('')
+    def m_string_size(self, st, obj, bt, args, n, fr):
+        l = self.e.uf('strlen', I, I)(self._sval(st, obj)); st.pc.append(l >= 0); return l
+    m_string_length = m_string_size
+
+    # tinyxml2 facade (trusted): elements are references, the document tree is three uninterpreted functions
+    def m_record_FirstChildElement(self, st, obj, bt, args, n, fr):
+        e = self.e
+        name = e.raw(e.rv(args[0], st, fr)) if args else z3.IntVal(0)
+        self.used('tinyxml2: FirstChildElement/NextSiblingElement/GetText as uninterpreted functions of (element, tag name); GetText may be null')
+        return Ptr(e.uf('xml.first_child', I, I, I)(obj.ref, name), 'tinyxml2::XMLElement')
+    def m_record_NextSiblingElement(self, st, obj, bt, args, n, fr):
+        e = self.e
+        name = e.raw(e.rv(args[0], st, fr)) if args else z3.IntVal(0)
+        return Ptr(e.uf('xml.next_sibling', I, I, I)(obj.ref, name), 'tinyxml2::XMLElement')
+    def m_record_GetText(self, st, obj, bt, args, n, fr):
+        return self.e.uf('xml.text', I, I)(obj.ref)
+    def m_record_LoadFile(self, st, obj, bt, args, n, fr):
+        self.e.rv(args[0], st, fr)
+        return self.e.fresh('xml.load_result', I)
 
     # std::optional members
     def m_optional_has_value(self, st, obj, bt, args, n, fr): return self._opt(st, obj).f['has']
